@@ -246,9 +246,37 @@ class ClientTask:
                         cl.conn.readCurrent(c)
                         rec.add('RC', self.idx, self.txn_no, c._p_oid,
                                 c._p_serial)
+                    elif step[0] == 'wrcd':
+                        # modify, declare the dependency while modified,
+                        # then discard the modification: the object is not
+                        # written, the declaration stands
+                        self.read(c, own)
+                        if c._p_oid in own:
+                            continue
+                        serial = c._p_serial
+                        c.token = w.tok()
+                        cl.conn.readCurrent(c)
+                        rec.add('RC', self.idx, self.txn_no, c._p_oid,
+                                serial)
+                        c._p_invalidate()
                     elif step[0] == 'sp':
                         cl.tm.savepoint()
                 if txn.get('end', 'commit') == 'abort':
+                    cl.abort()
+                    self.outcomes.append('abort')
+                    rec.add('A', self.idx, self.txn_no)
+                    continue
+                if txn.get('end') == 'failvote':
+                    # another participant votes no after the storage has
+                    # voted: the transaction is aborted with its records
+                    # already written behind the committed end
+                    from .connshadow import Boom, FailingDM
+                    cl.tm.get().join(FailingDM('tpc_vote', first=False))
+                    phase = 'commit'
+                    try:
+                        cl.commit()
+                    except Boom:
+                        pass
                     cl.abort()
                     self.outcomes.append('abort')
                     rec.add('A', self.idx, self.txn_no)
@@ -341,14 +369,14 @@ def gen_script(r, ncell, ntxn, write_p=0.5, rc_p=0.0, abort_p=0.08,
             if y < write_p:
                 steps.append(['w', k])
             elif y < write_p + rc_p:
-                steps.append(['rc', k])
+                steps.append([r.choice(('rc', 'rc', 'wrcd')), k])
             else:
                 steps.append(['r', k])
         if r.random() < 0.1:
             steps.insert(r.randrange(len(steps) + 1), ['sp', 0])
         t = {'steps': steps}
         if r.random() < abort_p:
-            t['end'] = 'abort'
+            t['end'] = r.choice(('abort', 'failvote'))
         out.append(t)
     return out
 
